@@ -1,6 +1,6 @@
 (* C16: resource-level restructuring conserves rows. *)
 From Coq Require Import List ZArith Bool Permutation.
-From DF Require Import Base.Str Base.Lits Base.ListX Base.Value Proc.RowOps Proc.Fields Proc.Resources Proc.Resources_proofs Proc.ConcatSchema_proofs Gen.Consts.
+From DF Require Import Base.Str Base.Lits Base.ListX Base.Value Proc.RowOps Proc.Fields Proc.Resources Proc.Resources_proofs Proc.ConcatSchema_proofs Proc.AutoName Proc.AutoName_proofs Gen.Consts.
 Import ListNotations.
 Open Scope Z_scope.
 
@@ -102,3 +102,26 @@ Print Assumptions C16_delete_keeps_order.
 Theorem C16_append_after : forall p new, exists rest, append_resources p new = p ++ rest /\ rest = new.
 Proof. exact append_after. Qed.
 Print Assumptions C16_append_after.
+
+(* automatic names of bare iterables (iterable_loader.process_datapackage, fix f9060c2): the name given is new, it is
+   res_<count+1> when that is free and the first free number after it otherwise, and names stay pairwise distinct over
+   every history of additions, deletions and explicitly named additions *)
+Theorem C16_auto_name_is_new : forall names, ~ In (Auto (auto_index names)) names.
+Proof. exact auto_index_fresh. Qed.
+Print Assumptions C16_auto_name_is_new.
+
+Theorem C16_auto_name_is_first_free : forall names,
+  (S (length names) <= auto_index names)%nat /\
+  forall j, (S (length names) <= j < auto_index names)%nat -> In (Auto j) names.
+Proof. exact auto_index_least. Qed.
+Print Assumptions C16_auto_name_is_first_free.
+
+Theorem C16_auto_names_distinct_over_histories : forall ops names names',
+  NoDup names -> nrun names ops = Some names' -> NoDup names'.
+Proof. exact nrun_nodup. Qed.
+Print Assumptions C16_auto_names_distinct_over_histories.
+
+(* the rule before the fix (res_<count+1> unconditionally) is refuted by a one-resource package named res_2 *)
+Theorem C16_old_auto_name_rule_refuted : exists names, NoDup names /\ ~ NoDup (old_add_auto names).
+Proof. exact old_add_auto_refuted. Qed.
+Print Assumptions C16_old_auto_name_rule_refuted.
